@@ -868,9 +868,10 @@ Proof.
   destruct (is_ok (s_res a) && is_ok (s_res b) && (s_shard a =? s_shard b) && (s_e a <? s_b b)) eqn:Hc; [|reflexivity].
   repeat (apply andb_true_iff in Hc; destruct Hc as [Hc ?]).
   apply N.eqb_eq in H0. apply N.ltb_lt in H.
-  apply forallb_forall. intros ra Hra. destruct (N.eqb_spec (r_task ra) (s_task a)) as [Ea|Na]; [|reflexivity].
-  cbn [negb orb]. apply forallb_forall. intros rb Hrb. destruct (N.eqb_spec (r_task rb) (s_task b)) as [Eb|Nb]; [|reflexivity].
-  cbn [negb orb]. cbn [m_hist h_runs] in Hra, Hrb.
+  unfold run_of. destruct (find (fun r => r_task r =? s_task a) (h_runs (m_hist (m_run evs)))) as [ra|] eqn:Fa; [|reflexivity].
+  destruct (find (fun r => r_task r =? s_task b) (h_runs (m_hist (m_run evs)))) as [rb|] eqn:Fb; [|reflexivity].
+  apply find_some in Fa. apply find_some in Fb. destruct Fa as (Hra & Ea). destruct Fb as (Hrb & Eb).
+  apply N.eqb_eq in Ea. apply N.eqb_eq in Eb. cbn [m_hist h_runs] in Hra, Hrb.
   destruct (q_run_link _ _ HI ra Hra) as (sa' & A1 & A2 & _ & A3).
   destruct (q_run_link _ _ HI rb Hrb) as (sb' & B1 & B2 & _ & B3).
   assert (sa' = a) by (apply (m_sub_unique evs); auto; congruence).
